@@ -74,14 +74,14 @@ func jobC13x(c *rt.Ctx) {
 					for i := 0; i < sl; i++ {
 						scB[32+i] = byte(i*3 + 1)
 					}
-					sc = scB[32 : 32+sl : 32+sl]
+					sc = scB[32 : 32+sl]
 				}
 				if pl >= 0 {
 					ptB = bytes.Repeat([]byte{0x5A}, 32+pl+32)
 					for i := 0; i < pl; i++ {
 						ptB[32+i] = byte(i*5 + 2)
 					}
-					pt = ptB[32 : 32+pl : 32+pl]
+					pt = ptB[32 : 32+pl]
 				}
 				if base == 1 {
 					if pl != 32 {
